@@ -510,7 +510,7 @@ def parseStatement (tb : Tables) (fuel : Nat) : PM (Stmt × List Stmt) :=
         let mut init : Option Stmt := none
         if !(← check .Semicolon) then
           let isFinalF ← matchTok .Final
-          if (← checkAny [.Int, .Float, .Char, .String, .Bit, .Qubit]) then
+          if (← checkAny [.Int, .Long, .Float, .Char, .String, .Bit, .Boolean, .Qubit]) then
             let (d, _) ← parseVariableDeclaration tb fuel isFinalF false
             init := some d
           else
